@@ -163,15 +163,23 @@ impl AliasParser {
 
     fn is_feature(&self) -> bool{ matches!(self.curr_tkn.kind, AliasTokenKind::Feature(_)) }
 
-    fn curr_token_to_modifier(&self) -> (FeatType, Mods) {
+    fn curr_token_to_modifier(&self) -> Result<(FeatType, Mods), AliasSyntaxError> {
         // returns ARG ← ('+' / '-') [a-zA-Z]+ / TONE  
         match self.curr_tkn.kind {
             AliasTokenKind::Feature(feature) => {
                 let value = &self.curr_tkn.value;
                 match value.as_str() {
-                    "+" => (feature, Mods::Binary(BinMod::Positive)),
-                    "-" => (feature, Mods::Binary(BinMod::Negative)),
-                    _ if feature == FeatType::Supr(SupraType::Tone) => (feature, Mods::Number(value.parse().expect("value is ascii digit"))),
+                    "+" => Ok((feature, Mods::Binary(BinMod::Positive))),
+                    "-" => Ok((feature, Mods::Binary(BinMod::Negative))),
+                    _ if feature == FeatType::Supr(SupraType::Tone) => {
+                        // as in rules: zeros carry no tone, at most four digits
+                        let v = value.replace('0', "");
+                        if v.chars().count() > 4 {
+                            Err(AliasSyntaxError::ToneTooBig(self.curr_tkn.clone()))
+                        } else {
+                            Ok((feature, Mods::Number(v.parse().unwrap_or(0))))
+                        }
+                    },
                     _ => {
                         unreachable!();
                     }
@@ -192,7 +200,7 @@ impl AliasParser {
                 continue;
             }
             if self.is_feature() {
-                let (ft, mods) = self.curr_token_to_modifier();
+                let (ft, mods) = self.curr_token_to_modifier()?;
                 match ft {
                     FeatType::Node(t) => args.nodes[t as usize] = if let Mods::Binary(b) = mods {
                         Some(ModKind::Binary(b))
